@@ -43,3 +43,26 @@ Theorem C04_requirement_constraint_evaluation : forall c e, dom e = true -> vali
       end.
 Proof. exact rc_evaluation_outcome. Qed.
 Print Assumptions C04_requirement_constraint_evaluation.
+
+(* ---- every schedule. Model/NodeBuilderAsync.v writes ConditionNodeBuilder.requirement_content_evaluation_for_all_condition_keys as a task tree:
+   one gathered coroutine per requirement-constraint key occurrence (dict(zip(keys, results)), one node per key from that dict), then one per hint
+   key (a missing text raises KeyError), then the format-constraint nodes. Evaluating a key / looking a hint up are arbitrary programs of the key.
+   Whatever the order in which they run, the environment handed to the transformer is the sequential model's; with look-ups that answer from a
+   content evaluation result that model is build_env, the environment of C04_requirement_constraint_evaluation. *)
+From Ahb Require Import Model.Async Model.NodeBuilderAsync Proofs.C04_async.
+
+Theorem C04_node_builder_under_every_schedule : forall (U : Type) (rcp hintp : text -> prog (nv U)) (c : ctx (nv U)) (keys : list text) (r : nv U),
+  steps (initial c (builder_prog U rcp hintp keys)) (Done r) ->
+  as_env r = build_env_gen (rcf_of U rcp c) (hintf_of U hintp c) keys.
+Proof. exact builder_every_schedule. Qed.
+Print Assumptions C04_node_builder_under_every_schedule.
+
+Theorem C04_sequential_builder_is_build_env : forall c keys, build_env c keys = build_env_gen (rc_of_cer c) (hint_of_cer c) keys.
+Proof. exact build_env_is_gen. Qed.
+Print Assumptions C04_sequential_builder_is_build_env.
+
+(* dict(zip(keys, results)) with results that are a function of the key: a look-up finds that key's value, repeated keys or not *)
+Theorem C04_dict_zip_lookup : forall (A : Type) (f : text -> result A) (l : list text) (vs : list A), mapM f l = Ok vs ->
+  forall k, In k l -> exists v, f k = Ok v /\ lookup_last (combine l vs) k = Some v.
+Proof. exact @lookup_last_mapM. Qed.
+Print Assumptions C04_dict_zip_lookup.
